@@ -503,6 +503,11 @@ def apply_event(S, ev, script=(), light=False, pre=None):
                 tr.ret = w.load()
             elif kind == 'dumpk':
                 tr.ret = w.dump(tr.key)
+            elif kind == 'dumpks':
+                # several keys in one call, in the given order (some of them usually not resident)
+                tr.ret = w.dump(*[S.kmap[i] for i in ev[1:] if i < len(S.kmap)])
+            elif kind == 'loadks':
+                tr.ret = w.load(*[S.kmap[i] for i in ev[1:] if i < len(S.kmap)])
             elif kind == 'loadk':
                 tr.ret = w.load(tr.key)
             elif kind == 'clear':
@@ -511,6 +516,10 @@ def apply_event(S, ev, script=(), light=False, pre=None):
                 tr.ret = w.clear(keepstats=True)
             elif kind == 'arch':
                 tr.ret = w.archived(ev[1])
+            elif kind == 'newarch':
+                # wrapper.archive(obj): replace the cache's archive by a fresh, empty in-memory archive
+                import klepto.archives as ka
+                tr.ret = w.archive(ka.dict_archive('replacement', cached=False))
             elif kind == 'lookup':
                 a, k = tr.call
                 tr.ret = w.lookup(*a, **k)
@@ -798,7 +807,9 @@ def explore_dfs(cfg, events, make_monitors, prop, depth=4):
 def event_enabled(cfg, ev):
     b = cfg['backend']
     has_archive = b not in ('none', 'plaindict') and not b.startswith('direct:') and b != 'null'
-    if ev[0] in ('dump', 'load', 'dumpk', 'loadk', 'arch') and not has_archive:
+    if ev[0] in ('dump', 'load', 'dumpk', 'loadk', 'arch', 'newarch', 'dumpks', 'loadks') and not has_archive:
+        return False
+    if ev[0] == 'newarch' and b.split(':')[-1] in PERSISTENT:
         return False
     if ev[0] == 'redec' and (b in ('none', 'plaindict', 'null')):
         return False
